@@ -22,40 +22,40 @@ Proof.
 Qed.
 
 (* the core, in small pieces so that each case split stays small *)
-Lemma sat_add_exact a b : i64_min <= a + b <= i64_max -> sat_add a b = a + b.
-Proof. unfold sat_add, i64_min, i64_max. intros H. zcases; lia. Qed.
+Lemma sat_add_exact a b : wide_min <= a + b <= wide_max -> sat_add a b = a + b.
+Proof. unfold sat_add, wide_min, wide_max. intros H. zcases; lia. Qed.
 
 Definition resolve (size i : Z) : Z := if i <? 0 then sat_add i size else i.
 
-Lemma resolve_elem n i : 0 < n <= i64_max -> i64_min <= i <= i64_max -> resolve n i = py_elem n i.
+Lemma resolve_elem n i : 0 < n <= wide_max -> wide_min <= i <= wide_max -> resolve n i = py_elem n i.
 Proof.
   unfold resolve, py_elem. intros Hn Hi. destruct (Z.ltb_spec i 0); [|reflexivity].
-  apply sat_add_exact. unfold i64_min, i64_max in *. lia.
+  apply sat_add_exact. unfold wide_min, wide_max in *. lia.
 Qed.
 
 Lemma clamp_bound n i : 0 < n -> clampZ (py_elem n i) 0 n = py_bound n i.
 Proof. unfold clampZ, py_elem, py_bound. intros Hn. zcases; lia. Qed.
 
-Lemma clamp_past n e : 0 < n <= i64_max -> i64_min <= e <= i64_max ->
+Lemma clamp_past n e : 0 < n <= wide_max -> wide_min <= e <= wide_max ->
   clampZ (sat_add (py_elem n e) 1) 0 n = py_past n e.
 Proof.
   unfold py_past. intros Hn He.
-  assert (i64_min <= py_elem n e <= i64_max) as Hr.
-  { unfold py_elem, i64_min, i64_max in *. destruct (Z.ltb_spec e 0); lia. }
-  unfold sat_add, clampZ, i64_min, i64_max in *. zcases; lia.
+  assert (wide_min <= py_elem n e <= wide_max) as Hr.
+  { unfold py_elem, wide_min, wide_max in *. destruct (Z.ltb_spec e 0); lia. }
+  unfold sat_add, clampZ, wide_min, wide_max in *. zcases; lia.
 Qed.
 
-Lemma py_bound_sat n a : 0 <= n <= i64_max -> py_bound n (index_i64 a) = py_bound n a.
-Proof. unfold py_bound, index_i64, i64_max. intros Hn. zcases; lia. Qed.
+Lemma py_bound_sat n a : 0 <= n <= wide_max -> py_bound n (index_wide a) = py_bound n a.
+Proof. unfold py_bound, index_wide, wide_max. intros Hn. zcases; lia. Qed.
 
-Lemma py_past_sat n a : 0 <= n <= i64_max -> py_past n (index_i64 a) = py_past n a.
-Proof. unfold py_past, py_elem, index_i64, i64_max. intros Hn. zcases; lia. Qed.
+Lemma py_past_sat n a : 0 <= n <= wide_max -> py_past n (index_wide a) = py_past n a.
+Proof. unfold py_past, py_elem, index_wide, wide_max. intros Hn. zcases; lia. Qed.
 
-Lemma index_i64_range a : i64_min <= a -> i64_min <= index_i64 a <= i64_max.
-Proof. unfold index_i64, i64_min, i64_max. intros. zcases; lia. Qed.
+Lemma index_wide_range a : wide_min <= a -> wide_min <= index_wide a <= wide_max.
+Proof. unfold index_wide, wide_min, wide_max. intros. zcases; lia. Qed.
 
-Lemma index_i64_id n : 0 <= n <= i64_max -> index_i64 n = n.
-Proof. unfold index_i64. intros. zcases; lia. Qed.
+Lemma index_wide_id n : 0 <= n <= wide_max -> index_wide n = n.
+Proof. unfold index_wide. intros. zcases; lia. Qed.
 
 (* range_bounds with every piece replaced by its specification *)
 Definition start_of (n : Z) (s : bnd) : Z :=
@@ -64,16 +64,16 @@ Definition stop_of (n : Z) (e : bnd) : Z :=
   match e with Unb => n | Inc b => py_past n b | Exc b => py_bound n b end.
 
 Definition bnd_ok (b : bnd) : Prop :=
-  match b with Unb => True | Inc z | Exc z => i64_min <= z <= i64_max end.
+  match b with Unb => True | Inc z | Exc z => wide_min <= z <= wide_max end.
 
-Lemma range_bounds_spec s e n : 0 <= n <= i64_max -> bnd_ok s -> bnd_ok e ->
+Lemma range_bounds_spec s e n : 0 <= n <= wide_max -> bnd_ok s -> bnd_ok e ->
   range_bounds s e n =
   if n =? 0 then None
   else if stop_of n e <=? start_of n s then None else Some (start_of n s, stop_of n e).
 Proof.
-  intros Hn Hs He. unfold range_bounds; cbv zeta. rewrite !(index_i64_id n Hn).
+  intros Hn Hs He. unfold range_bounds; cbv zeta. rewrite !(index_wide_id n Hn).
   destruct (Z.eqb_spec n 0) as [|Hn0]; [reflexivity|].
-  assert (Hn' : 0 < n <= i64_max) by lia.
+  assert (Hn' : 0 < n <= wide_max) by lia.
   change (if ?i <? 0 then sat_add ?i n else ?i) with (resolve n i) in *.
   assert (Hstart : clampZ match s with Unb => 0 | Inc a => resolve n a | Exc a => sat_add (resolve n a) 1 end 0 n
                    = start_of n s).
@@ -95,59 +95,59 @@ Proof. unfold py_bound. intros. zcases; lia. Qed.
 Lemma py_past_le n i : 0 <= n -> 0 <= py_past n i <= n.
 Proof. unfold py_past. intros. zcases; lia. Qed.
 
-Lemma rb_incl_excl n a b : 0 <= n <= i64_max -> i64_min <= a -> i64_min <= b ->
-  range_bounds (Inc (index_i64 a)) (Exc (index_i64 b)) n = py_slice n (Rng a b).
+Lemma rbw_incl_excl n a b : 0 <= n <= wide_max -> wide_min <= a -> wide_min <= b ->
+  range_bounds (Inc (index_wide a)) (Exc (index_wide b)) n = py_slice n (Rng a b).
 Proof.
-  intros Hn Ha Hb. rewrite range_bounds_spec by (cbn; auto using index_i64_range).
+  intros Hn Ha Hb. rewrite range_bounds_spec by (cbn; auto using index_wide_range).
   cbn [start_of stop_of py_slice]. rewrite !py_bound_sat by assumption.
   pose proof (py_bound_le n a). pose proof (py_bound_le n b).
   destruct (Z.eqb_spec n 0); zcases; try reflexivity; lia.
 Qed.
 
-Lemma rb_incl_unb n a : 0 <= n <= i64_max -> i64_min <= a ->
-  range_bounds (Inc (index_i64 a)) Unb n = py_slice n (From a).
+Lemma rbw_incl_unb n a : 0 <= n <= wide_max -> wide_min <= a ->
+  range_bounds (Inc (index_wide a)) Unb n = py_slice n (From a).
 Proof.
-  intros Hn Ha. rewrite range_bounds_spec by (cbn; auto using index_i64_range).
+  intros Hn Ha. rewrite range_bounds_spec by (cbn; auto using index_wide_range).
   cbn [start_of stop_of py_slice]. rewrite !py_bound_sat by assumption.
   pose proof (py_bound_le n a).
   destruct (Z.eqb_spec n 0); zcases; try reflexivity; lia.
 Qed.
 
-Lemma rb_unb_excl n b : 0 <= n <= i64_max -> i64_min <= b ->
-  range_bounds Unb (Exc (index_i64 b)) n = py_slice n (To b).
+Lemma rbw_unb_excl n b : 0 <= n <= wide_max -> wide_min <= b ->
+  range_bounds Unb (Exc (index_wide b)) n = py_slice n (To b).
 Proof.
-  intros Hn Hb. rewrite range_bounds_spec by (cbn; auto using index_i64_range).
+  intros Hn Hb. rewrite range_bounds_spec by (cbn; auto using index_wide_range).
   cbn [start_of stop_of py_slice]. rewrite !py_bound_sat by assumption.
   pose proof (py_bound_le n b).
   destruct (Z.eqb_spec n 0); zcases; try reflexivity; lia.
 Qed.
 
-Lemma rb_incl_incl n a b : 0 <= n <= i64_max -> i64_min <= a -> i64_min <= b ->
-  range_bounds (Inc (index_i64 a)) (Inc (index_i64 b)) n = py_slice n (RngI a b).
+Lemma rbw_incl_incl n a b : 0 <= n <= wide_max -> wide_min <= a -> wide_min <= b ->
+  range_bounds (Inc (index_wide a)) (Inc (index_wide b)) n = py_slice n (RngI a b).
 Proof.
-  intros Hn Ha Hb. rewrite range_bounds_spec by (cbn; auto using index_i64_range).
+  intros Hn Ha Hb. rewrite range_bounds_spec by (cbn; auto using index_wide_range).
   cbn [start_of stop_of py_slice]. rewrite py_bound_sat, py_past_sat by assumption.
   pose proof (py_bound_le n a). pose proof (py_past_le n b).
   destruct (Z.eqb_spec n 0); zcases; try reflexivity; lia.
 Qed.
 
-Lemma rb_unb_incl n b : 0 <= n <= i64_max -> i64_min <= b ->
-  range_bounds Unb (Inc (index_i64 b)) n = py_slice n (ToI b).
+Lemma rbw_unb_incl n b : 0 <= n <= wide_max -> wide_min <= b ->
+  range_bounds Unb (Inc (index_wide b)) n = py_slice n (ToI b).
 Proof.
-  intros Hn Hb. rewrite range_bounds_spec by (cbn; auto using index_i64_range).
+  intros Hn Hb. rewrite range_bounds_spec by (cbn; auto using index_wide_range).
   cbn [start_of stop_of py_slice]. rewrite py_past_sat by assumption.
   pose proof (py_past_le n b).
   destruct (Z.eqb_spec n 0); zcases; try reflexivity; lia.
 Qed.
 
-Lemma rb_full n : 0 <= n <= i64_max -> range_bounds Unb Unb n = py_slice n Full.
+Lemma rbw_full n : 0 <= n <= wide_max -> range_bounds Unb Unb n = py_slice n Full.
 Proof.
   intros Hn. rewrite range_bounds_spec by (cbn; auto).
   cbn [start_of stop_of py_slice].
   destruct (Z.eqb_spec n 0); zcases; try reflexivity; lia.
 Qed.
 
-Lemma rb_idx_signed n i : 0 <= n <= i64_max -> i64_min <= i <= i64_max ->
+Lemma rbw_idx_signed n i : 0 <= n <= wide_max -> wide_min <= i <= wide_max ->
   range_bounds (Inc i) (Inc i) n = py_slice n (Idx i).
 Proof.
   intros Hn Hi. rewrite range_bounds_spec by (cbn; auto).
@@ -165,20 +165,20 @@ Proof.
 Qed.
 
 Theorem view_bounds_py t s n :
-  0 <= n <= i64_max -> sel_in t s = true -> view_bounds t s n = py_slice n s.
+  0 <= n <= wide_max -> sel_in t s = true -> view_bounds t s n = py_slice n s.
 Proof.
   intros Hn Hs. destruct s as [i|a b|a|b|a b|b|]; cbn [view_bounds sel_in] in *.
   - destruct (ity_signed t) eqn:Hsg.
-    + apply rb_idx_signed; [exact Hn|]. pose proof (in_ity_signed _ _ Hsg Hs). unfold i64_min, i64_max. lia.
+    + apply rbw_idx_signed; [exact Hn|]. pose proof (in_ity_signed _ _ Hsg Hs). unfold wide_min, wide_max. lia.
     + apply idx_unsigned; [lia|]. eapply in_ity_unsigned; eauto.
   - apply andb_true_iff in Hs as [Ha Hb]. apply in_ity_bounds in Ha, Hb.
-    apply rb_incl_excl; unfold i64_min; lia.
-  - apply in_ity_bounds in Hs. apply rb_incl_unb; unfold i64_min; lia.
-  - apply in_ity_bounds in Hs. apply rb_unb_excl; unfold i64_min; lia.
+    apply rbw_incl_excl; unfold wide_min; lia.
+  - apply in_ity_bounds in Hs. apply rbw_incl_unb; unfold wide_min; lia.
+  - apply in_ity_bounds in Hs. apply rbw_unb_excl; unfold wide_min; lia.
   - apply andb_true_iff in Hs as [Ha Hb]. apply in_ity_bounds in Ha, Hb.
-    apply rb_incl_incl; unfold i64_min; lia.
-  - apply in_ity_bounds in Hs. apply rb_unb_incl; unfold i64_min; lia.
-  - apply rb_full. exact Hn.
+    apply rbw_incl_incl; unfold wide_min; lia.
+  - apply in_ity_bounds in Hs. apply rbw_unb_incl; unfold wide_min; lia.
+  - apply rbw_full. exact Hn.
 Qed.
 
 Theorem py_slice_range n s a b : 0 <= n -> py_slice n s = Some (a, b) -> 0 <= a /\ a < b /\ b <= n.
@@ -204,7 +204,7 @@ Proof.
 Qed.
 
 Theorem view_bounds_type_independent t1 t2 s n :
-  0 <= n <= i64_max -> sel_in t1 s = true -> sel_in t2 s = true ->
+  0 <= n <= wide_max -> sel_in t1 s = true -> sel_in t2 s = true ->
   view_bounds t1 s n = view_bounds t2 s n.
 Proof. intros Hn H1 H2. rewrite !view_bounds_py by assumption. reflexivity. Qed.
 
@@ -221,3 +221,52 @@ Proof.
            | |- context [(?p && ?q)%bool] => cbn [andb]
            end; cbn [andb]; try lia.
 Qed.
+
+(* ---------- the full domain of the code: every usize axis length ---------- *)
+Lemma usize_wide n : 0 <= n <= usize_max -> 0 <= n <= wide_max.
+Proof. unfold usize_max, wide_max. lia. Qed.
+
+Theorem view_bounds_py_usize t s n :
+  0 <= n <= usize_max -> sel_in t s = true -> view_bounds t s n = py_slice n s.
+Proof. intros Hn Hs. apply view_bounds_py; [apply usize_wide, Hn|exact Hs]. Qed.
+
+Theorem view_bounds_range t s n a b :
+  0 <= n <= usize_max -> sel_in t s = true -> view_bounds t s n = Some (a, b) -> 0 <= a /\ a < b /\ b <= n.
+Proof.
+  intros Hn Hs E. rewrite (view_bounds_py_usize t s n Hn Hs) in E.
+  apply (py_slice_range n s a b); [lia|exact E].
+Qed.
+
+Theorem view_bounds_type_independent_usize t1 t2 s n :
+  0 <= n <= usize_max -> sel_in t1 s = true -> sel_in t2 s = true ->
+  view_bounds t1 s n = view_bounds t2 s n.
+Proof. intros Hn H1 H2. apply view_bounds_type_independent; try assumption. apply usize_wide, Hn. Qed.
+
+(* the saturation of index_wide never happens on values of the index types *)
+Lemma index_wide_never_saturates t z : in_ity t z = true -> index_wide z = z.
+Proof. intros H. apply in_ity_bounds in H. unfold index_wide, wide_max. zcases; lia. Qed.
+
+(* the same facts under the hypotheses of the i64 era (axis length and bounds within i64), kept under
+   their old names for the files of other properties that use them *)
+Lemma i64_in_wide n : 0 <= n <= i64_max -> 0 <= n <= wide_max.
+Proof. unfold i64_max, wide_max. lia. Qed.
+Lemma i64_min_wide a : i64_min <= a -> wide_min <= a.
+Proof. unfold i64_min, wide_min. lia. Qed.
+
+Lemma rb_incl_excl n a b : 0 <= n <= i64_max -> i64_min <= a -> i64_min <= b ->
+  range_bounds (Inc (index_wide a)) (Exc (index_wide b)) n = py_slice n (Rng a b).
+Proof. intros. apply rbw_incl_excl; auto using i64_in_wide, i64_min_wide. Qed.
+Lemma rb_incl_unb n a : 0 <= n <= i64_max -> i64_min <= a ->
+  range_bounds (Inc (index_wide a)) Unb n = py_slice n (From a).
+Proof. intros. apply rbw_incl_unb; auto using i64_in_wide, i64_min_wide. Qed.
+Lemma rb_unb_excl n b : 0 <= n <= i64_max -> i64_min <= b ->
+  range_bounds Unb (Exc (index_wide b)) n = py_slice n (To b).
+Proof. intros. apply rbw_unb_excl; auto using i64_in_wide, i64_min_wide. Qed.
+Lemma rb_incl_incl n a b : 0 <= n <= i64_max -> i64_min <= a -> i64_min <= b ->
+  range_bounds (Inc (index_wide a)) (Inc (index_wide b)) n = py_slice n (RngI a b).
+Proof. intros. apply rbw_incl_incl; auto using i64_in_wide, i64_min_wide. Qed.
+Lemma rb_unb_incl n b : 0 <= n <= i64_max -> i64_min <= b ->
+  range_bounds Unb (Inc (index_wide b)) n = py_slice n (ToI b).
+Proof. intros. apply rbw_unb_incl; auto using i64_in_wide, i64_min_wide. Qed.
+Lemma rb_full n : 0 <= n <= i64_max -> range_bounds Unb Unb n = py_slice n Full.
+Proof. intros. apply rbw_full; auto using i64_in_wide. Qed.
